@@ -13515,3 +13515,154 @@ func rootFieldDeep(info *types.Info, e ast.Expr, tracked map[types.Object]bool) 
 		}
 	}
 }
+
+// E11LeadingCutExact: SplitAt discards a leading cut only when Dash would not have requested it.
+func E11LeadingCutExact(c *core.Ctx, r *core.Report) {
+	r.Rule("E11.leading-cut-exact", "Dash decides which of the pieces SplitAt returns are dashes from the parity of the number of cuts it requested, and it requests every boundary with `0.0 < pos` — an exact comparison. SplitAt may therefore discard a leading cut (`ts = ts[k:]` in front of the segment loop) only under a guard that is true for non-positive cuts only: comparisons of ts[0] with the constant zero by ==, < or <= and tests of len(ts), joined by && and ||. A guard with a tolerance (`Equal(ts[0], 0.0)`) also discards a cut a rounding error above zero, every later piece changes parity and Dash draws the gaps (`Dash(math.Nextafter(2,0), 2, 1)`)")
+	p := c.MustPkg("")
+	info := p.TypesInfo
+	fd := core.MustFuncDecl(p, "Path.SplitAt")
+	ts := paramObj(info, fd, 0)
+	if ts == nil {
+		panic(core.Infra("SplitAt: the parameter with the cut positions was not found"))
+	}
+	isTs := func(e ast.Expr) bool {
+		id, ok := core.Unparen(e).(*ast.Ident)
+		return ok && core.ObjOf(info, id) == ts
+	}
+	var leaf func(e ast.Expr) string
+	leaf = func(e ast.Expr) string {
+		e = core.Unparen(e)
+		if be, ok := e.(*ast.BinaryExpr); ok {
+			switch be.Op {
+			case token.LAND, token.LOR:
+				if bad := leaf(be.X); bad != "" {
+					return bad
+				}
+				return leaf(be.Y)
+			case token.EQL, token.LSS, token.LEQ, token.NEQ, token.GTR, token.GEQ:
+				// a test of len(ts)
+				for _, side := range []ast.Expr{be.X, be.Y} {
+					if call, ok := core.Unparen(side).(*ast.CallExpr); ok && len(call.Args) == 1 {
+						if id, ok := call.Fun.(*ast.Ident); ok && id.Name == "len" && isTs(call.Args[0]) {
+							return ""
+						}
+					}
+				}
+				// ts[0] against the constant zero
+				x, y := core.Unparen(be.X), core.Unparen(be.Y)
+				op := be.Op
+				if _, isConst := core.ConstInt(info, x); isConst || numSign(core.ConstVal(info, x)) == 0 && core.ConstVal(info, x) != nil {
+					x, y = y, x
+					switch op {
+					case token.LSS:
+						op = token.GTR
+					case token.LEQ:
+						op = token.GEQ
+					case token.GTR:
+						op = token.LSS
+					case token.GEQ:
+						op = token.LEQ
+					}
+				}
+				ie, ok := x.(*ast.IndexExpr)
+				if !ok || !isTs(ie.X) {
+					break
+				}
+				if k, ok := core.ConstInt(info, ie.Index); !ok || k != 0 {
+					break
+				}
+				v := core.ConstVal(info, y)
+				if v == nil || numSign(v) != 0 {
+					return fmt.Sprintf("`%s` compares the cut with a value other than zero", c.Src(be))
+				}
+				if op == token.EQL || op == token.LSS || op == token.LEQ {
+					return ""
+				}
+				return fmt.Sprintf("`%s` is true for positive cuts", c.Src(be))
+			}
+		}
+		return fmt.Sprintf("`%s` is not an exact comparison of the first cut with zero", c.Src(e))
+	}
+	n := 0
+	var stack []ast.Node
+	ast.Inspect(fd.Body, func(nd ast.Node) bool {
+		if nd == nil {
+			stack = stack[:len(stack)-1]
+			return true
+		}
+		stack = append(stack, nd)
+		as, ok := nd.(*ast.AssignStmt)
+		if !ok || len(as.Lhs) != 1 || len(as.Rhs) != 1 || !isTs(as.Lhs[0]) {
+			return true
+		}
+		se, ok := core.Unparen(as.Rhs[0]).(*ast.SliceExpr)
+		if !ok || !isTs(se.X) || se.Low == nil {
+			return true
+		}
+		n++
+		key := fmt.Sprintf("canvas.Path.SplitAt|leading cuts discarded #%d", n)
+		bad := ""
+		guards := 0
+		for i := len(stack) - 2; i >= 0; i-- {
+			var cond ast.Expr
+			switch g := stack[i].(type) {
+			case *ast.IfStmt:
+				cond = g.Cond
+			case *ast.ForStmt:
+				cond = g.Cond
+			}
+			if cond != nil {
+				guards++
+				if b := leaf(cond); b != "" && bad == "" {
+					bad = b
+				}
+			}
+		}
+		switch {
+		case guards == 0:
+			r.Fail("E11.leading-cut-exact", key, c.Pos(as.Pos()), "a leading cut is discarded unconditionally")
+		case bad != "":
+			r.Fail("E11.leading-cut-exact", key, c.Pos(as.Pos()), "the guard of `"+c.Src(as)+"`: "+bad+": a cut that Dash requested (it tests `0.0 < pos` exactly) is discarded, the pieces after it change parity and Dash draws the gaps instead of the dashes")
+		default:
+			r.OK("E11.leading-cut-exact", key, c.Pos(as.Pos()), "")
+		}
+		return true
+	})
+	// the other half of the contract: Dash requests with an exact `0.0 < pos`
+	dd := core.MustFuncDecl(p, "Path.Dash")
+	exact := 0
+	ast.Inspect(dd.Body, func(nd ast.Node) bool {
+		is, ok := nd.(*ast.IfStmt)
+		if !ok {
+			return true
+		}
+		be, ok := core.Unparen(is.Cond).(*ast.BinaryExpr)
+		if !ok || be.Op != token.LSS {
+			return true
+		}
+		if v := core.ConstVal(info, be.X); v == nil || numSign(v) != 0 {
+			return true
+		}
+		appends := false
+		ast.Inspect(is.Body, func(k ast.Node) bool {
+			if call, ok := k.(*ast.CallExpr); ok {
+				if id, ok := call.Fun.(*ast.Ident); ok && id.Name == "append" {
+					appends = true
+				}
+			}
+			return true
+		})
+		if appends {
+			exact++
+		}
+		return true
+	})
+	if exact > 0 {
+		r.OK("E11.leading-cut-exact", "canvas.Path.Dash|cuts requested when 0 < pos", c.Pos(dd.Pos()), "")
+	} else {
+		r.Fail("E11.leading-cut-exact", "canvas.Path.Dash|cuts requested when 0 < pos", c.Pos(dd.Pos()), "Dash no longer requests its cuts under an exact `0.0 < pos`: the contract with SplitAt's exact test of the first cut cannot be checked")
+	}
+	r.Count("E11.leading-cut-sites", n)
+	r.Floor("E11.leading-cut-sites", 1)
+}
